@@ -16,12 +16,13 @@
 (* has not seen created: the server no longer starts.                      *)
 (***************************************************************************)
 EXTENDS Integers, Sequences, FiniteSets, TLC
-CONSTANTS Topics,          \* entities
+CONSTANTS Inst,            \* instances of each command (2: an entity can be deleted and created again)
+          Topics,          \* entities
           PurgeExclusive,  \* TRUE: purge takes the lock exclusively (repaired); FALSE: shared (as found)
           ReleaseEarly     \* kinds of command that give the lock up BEFORE they journal instead of downgrading ({} as coded; a
                            \* handler that re-acquires the shared lock for its journal entry is a second negative control)
 Kinds == {"create", "purge", "delete"}
-Cmds == Kinds \X Topics
+Cmds == Kinds \X Topics \X Inst
 VARIABLES exists,    \* topics that exist (the in-memory catalogue)
           readers,   \* commands holding the system lock shared (after their effect / downgrade)
           pc,        \* [Cmds -> {"idle", "journal", "done", "refused"}]
